@@ -29,6 +29,7 @@ package h2x
 import (
 	"bytes"
 	"fmt"
+	"math"
 	"strconv"
 	"strings"
 
@@ -56,10 +57,21 @@ var FieldLists = func() [][]hpack.HeaderField {
 		10: {{Name: ":authority", Value: "example.test"}, {Name: "cookie", Value: "a=1"}, {Name: "cookie", Value: "b=2"},
 			{Name: "x-empty", Value: ""}, {Name: "authorization", Value: "secret-0123456789", Sensitive: true}, {Name: "x-a", Value: "1"}},
 		// many small indexable fields: churns a small dynamic table
+		// ~7 KB of indexable fields: needs a dynamic table above the 4096-octet default to be
+		// sent a second time as indexed references only
+		12: bigIndexable(),
 		11: {{Name: "x-f1", Value: "v1"}, {Name: "x-f2", Value: "v2"}, {Name: "x-f3", Value: "v3"}, {Name: "x-f4", Value: "v4"},
 			{Name: "x-f5", Value: "v5"}, {Name: "x-f6", Value: "v6"}, {Name: "x-b", Value: "2"}, {Name: "x-f1", Value: "v1"}},
 	}
 }()
+
+func bigIndexable() []hpack.HeaderField {
+	var l []hpack.HeaderField
+	for i := 0; i < 80; i++ {
+		l = append(l, hpack.HeaderField{Name: fmt.Sprintf("x-g%02d", i), Value: fmt.Sprintf("%02d-%s", i, strings.Repeat("w", 45))})
+	}
+	return l
+}
 
 func fidOf(fs []hpack.HeaderField) int {
 	for i, l := range FieldLists {
@@ -163,6 +175,8 @@ func sizeUpdates(b []byte) (last uint32, ok bool) {
 func NewEndpoint() *Endpoint {
 	e := &Endpoint{}
 	e.enc = hpack.NewEncoder(&e.encBuf)
+	// follow the peer's HEADER_TABLE_SIZE up as well as down (the default limit is 4096)
+	e.enc.SetMaxDynamicTableSizeLimit(math.MaxUint32)
 	e.dec = hpack.NewDecoder(4096, nil)
 	e.fr = http2.NewFramer(&e.wbuf, nil)
 	e.fr.AllowIllegalWrites = true
